@@ -22,11 +22,11 @@ from typing import Dict, List, Set
 from ..core.loader import FunctionInfo, Project
 from .common import local_names
 
-KEEP_DTYPE_FUNCS = {"numpy.copy", "numpy.array", "numpy.asarray", "numpy.asanyarray", "numpy.atleast_1d", "numpy.atleast_2d",
+KEEP_DTYPE_FUNCS = {"numpy.copy", "numpy.array", "numpy.asarray", "numpy.asanyarray", "numpy.asarray_chkfinite", "numpy.atleast_1d", "numpy.atleast_2d",
                     "numpy.sort", "numpy.squeeze", "numpy.ravel", "numpy.ascontiguousarray", "numpy.transpose",
                     "numpy.reshape", "numpy.unique", "numpy.flip", "numpy.concatenate", "numpy.vstack", "numpy.hstack"}
 LIKE_FUNCS = {"numpy.zeros_like", "numpy.ones_like", "numpy.full_like", "numpy.empty_like"}
-CREATE_FUNCS = {"numpy.empty", "numpy.zeros", "numpy.ones", "numpy.full", "numpy.array", "numpy.asarray", "numpy.ndarray"}
+CREATE_FUNCS = {"numpy.empty", "numpy.zeros", "numpy.ones", "numpy.full", "numpy.array", "numpy.asarray", "numpy.asarray_chkfinite", "numpy.ndarray"}
 KEEP_DTYPE_METHODS = {"copy", "reshape", "flatten", "ravel", "squeeze", "transpose", "view"}
 FLOAT_FUNCS = {"numpy.sqrt", "numpy.exp", "numpy.log", "numpy.mean", "numpy.average", "numpy.linspace", "numpy.sin", "numpy.cos",
                "numpy.arcsin", "numpy.divide", "numpy.true_divide", "numpy.std", "numpy.var", "numpy.median", "numpy.interp",
@@ -390,4 +390,19 @@ def run_on(project: Project, rep, rule: str, functions: List[FunctionInfo], floo
     rep.discharged(rule, functions[0] if functions else None, functions[0].node if functions else None,
                    f"{n} functions inspected: no floating-point store into an array whose dtype is inherited from the caller") \
         if functions else None
+    # ... and no arithmetic between quantities that still have the caller's (possibly narrow or unsigned) integer dtype
+    from . import intarith_rule
+    for fi in functions:
+        if fi.parent is not None or not isinstance(fi.node, (ast.FunctionDef, ast.AsyncFunctionDef)):
+            continue
+        ap = intarith_rule.array_params_of(project, fi)
+        hs = intarith_rule.analyse(project, fi)
+        if not ap and not hs:
+            continue
+        for h in hs:
+            rep.refuted(rule, fi, h["node"], h["why"] + " — the same numbers given as floats or as nested lists give another result",
+                        construct=f"{fi.qualname}: {ast.unparse(h['node'])[:100]}")
+        if not hs:
+            rep.discharged(rule, fi, fi.node, f"array parameters {sorted(ap)}: no difference of two caller arrays, product, power or "
+                                              f"sum is formed while the operands still have the caller's dtype")
     return n
